@@ -1415,7 +1415,18 @@ M.contract(P_PARSE + ':_Parser._just_argument_with_symbol_references',
                           path_from_symbol_reference.SdvThatIsIdenticalToReferencedPathOrWithStringValueAsSuffix)
                or (isinstance(result, parse_path._PathSdvOfRelativityOptionAndSuffixSdv)
                    and result.relativity is default_of(self.conf.rel_opt_conf)),
+               # `@[S]@` and `@[S]@/suffix`: S may be a path (the root) -- "a leading path-symbol reference resolves to
+               # the documented root joined with its suffix".  `@[S]@x`: a concatenation, S is part of a file name
+               # and must be a string (a path symbol there is wrongly typed: C08).
+               'the leading reference may be a path iff it is the whole argument or is followed by "/"':
+                   lambda string_fragments, result:
+                   iff(isinstance(result,
+                                  path_from_symbol_reference.SdvThatIsIdenticalToReferencedPathOrWithStringValueAsSuffix),
+                       (not string_fragments[0].is_constant)
+                       and (len(string_fragments) == 1
+                            or (string_fragments[1].is_constant and string_fragments[1].value.startswith('/')))),
            }, raises_only=())
+M.contracts[-1].props = tuple(sorted(set(M.contracts[-1].props) | {'C08'}))
 
 
 def _result_respects(self, result):
